@@ -14,7 +14,7 @@
 
   Transcribed: `(*converter).convert` (count, the `seen` hit with Cycles:"throw" / Reused:"ref", the placeholder, the
   registration of composite schemas under Reused:"ref", ID hoisting, automatic hoisting of reused schemas),
-  `(*converter).convertLazy` (the three-way answer for an inner schema that is in `seen`), `toJSONSchemaSingle`.
+  `(*converter).convertLazy` / `lazyRef` (the four-way answer for an inner schema that is in `seen`), `toJSONSchemaSingle`.
   Not modelled: `Options.URI` (external references), `Override`.
 -/
 namespace Gozod.Jsc.Refs
@@ -58,15 +58,18 @@ def foldKids (f : St → Nat → Option St) : St → List Nat → Option St
       | none => none
       | some st' => foldKids f st' ks
 
-/-- `convertLazy` on the inner schema `m`: in `seen` ⇒ a reference (by ID, by automatic name, or to the root `#`),
-    otherwise `c.convert(m)`. -/
-def lazyKid (g : Graph) (conv : St → Nat → Option St) (st : St) (m : Nat) : Option St :=
+/-- `convertLazy` on the inner schema `m`: in `seen` ⇒ `lazyRef` (/repo 16f278d): a reference by ID, by automatic name,
+    `#` when `m` is the root, and otherwise a NEW `$defs` entry (registered like the automatic names; its content is
+    filled in when `m`'s conversion returns); not in `seen` ⇒ `c.convert(m)`. -/
+def lazyKid (g : Graph) (root : Nat) (conv : St → Nat → Option St) (st : St) (m : Nat) : Option St :=
   if st.seen.contains m then
     match (g m).id with
     | some i => some (st.emit i)
     | none => match st.refs (g m).base with
         | some name => some (st.emit name)
-        | none => some st                     -- {"$ref": "#"}
+        | none =>
+            if m = root then some st            -- {"$ref": "#"}
+            else some ((st.register (g m).base).emit (autoName (st.register (g m).base).auto))
   else conv st m
 
 /-- Reused:"ref": a composite, non-optional, non-nilable schema is registered (`refs` + `defs`) as soon as it is converted. -/
@@ -91,7 +94,7 @@ def stepAuto (o : Opts) (nd : Node) (st : St) : St :=
 
 /-- `(*converter).convert`.  `stack` = the instances whose conversion is in progress (ghost: the Go call stack);
     `none` = conversion error (`ErrCircularReference`) or fuel exhausted. -/
-def convert (g : Graph) (o : Opts) : Nat → List Nat → St → Nat → Option St
+def convert (g : Graph) (o : Opts) (root : Nat) : Nat → List Nat → St → Nat → Option St
   | 0, _, _, _ => none
   | fuel + 1, stack, st, n =>
     let st := { st with counts := fun b => if b = (g n).base then st.counts b + 1 else st.counts b }
@@ -104,13 +107,13 @@ def convert (g : Graph) (o : Opts) : Nat → List Nat → St → Nat → Option 
       else some st
     else
       let st := { st with seen := n :: st.seen }
-      let sub := if (g n).isLazy then foldKids (lazyKid g (convert g o fuel (n :: stack))) st (g n).kids
-                 else foldKids (convert g o fuel (n :: stack)) st (g n).kids
+      let sub := if (g n).isLazy then foldKids (lazyKid g root (convert g o root fuel (n :: stack))) st (g n).kids
+                 else foldKids (convert g o root fuel (n :: stack)) st (g n).kids
       match sub with
       | none => none
       | some st => some (stepAuto o (g n) (stepId (g n) (stepRegister o (g n) st)))
 
 /-- `toJSONSchemaSingle`: a fresh converter, one `convert`, all of `c.defs` attached to the root. -/
-def convertTop (g : Graph) (o : Opts) (fuel : Nat) (root : Nat) : Option St := convert g o fuel [] {} root
+def convertTop (g : Graph) (o : Opts) (fuel : Nat) (root : Nat) : Option St := convert g o root fuel [] {} root
 
 end Gozod.Jsc.Refs
